@@ -1,6 +1,7 @@
 import H264.RefNal
 import H264.RbspInit
 import H264.C20Hdr
+import H264.SmallProofC15
 /-! # C15 — A NAL over head + tail chunks reads as their concatenation; partial NALs block
 
 Model: `Rbsp.Chunked` = `RefNalReader { cur, tail, complete }` with `read` / `fill_buf` / `consume`; a clone is the same
@@ -60,5 +61,12 @@ theorem header_accessors : Generated.hdr.length = 256 ∧ ∀ b : Fin 256,
 
 /-- non-vacuity -/
 example : (NalSrc.mkChunked [[0x65, 1], [2], [3, 4]] false).WF := mkChunked_wf _ _ (by simp)
+
+/-- **call-level model = real code on a complete small domain, by proof**: a four-byte NAL in every chunking (8 compositions),
+complete and incomplete, drained by six programs (reads of 1 / 2 / 3 / 5 bytes, fill + consume all, fill + consume 1): the
+model reader delivers what the real `RefNalReader` delivered in this run's graph, ends the same way (end of data vs
+WouldBlock) and answers the same when asked again -/
+theorem model_reader_reproduces_code : (List.range 96).map SmallProof.refnalRow = Generated.refnalRows :=
+  SmallProof.refnal_model_eq_code
 
 end C15
